@@ -189,11 +189,23 @@ def run(ck: Check):
         n = rng.choice([2, 3, 5, 8, 13, 32])
         cases.append({"seed": rng.randrange(1 << 30), "brokers": rng.choice([1, 2]), "partitions": n, "ser": "json",
                       "keys": [rng.choice(objs) for _ in range(ck.n(25, 60))], "leaderless": []})
+    # ... and topics that gain partitions while the producer runs (one producer object, keyed sends before and after
+    # the metadata refresh that reports the new count): "modulo the number of partitions" means the current number
+    for i in range(ck.n(6, 40)):
+        n = rng.choice([1, 2, 3, 4, 5, 8])
+        m = n + rng.choice([1, 2, 3, 8])
+        nk = ck.n(30, 60)
+        cases.append({"seed": rng.randrange(1 << 30), "brokers": rng.choice([1, 2, 3]), "partitions": n,
+                      "keys": [None if rng.random() < 0.1 else list(rng.choice(keys)[:64]) for _ in range(nk)],
+                      "leaderless": [], "grow": {"after": rng.randrange(3, nk // 2), "to": m}})
     e2e = run_impl("c17_e2e_impl.py", {"cases": cases}, timeout=900, env={"AIOKAFKA_NO_EXTENSIONS": "1"})["out"]
     nb = 0
-    for c, r in zip(cases, e2e):
-        wk = r.get("wire_keys") or [None] * len(c["keys"])
-        for key0, rep, land, wkey in zip(c["keys"], r["reported"], r["landed"], wk):
+    for c0, r in zip(cases, e2e):
+        wk = r.get("wire_keys") or [None] * len(c0["keys"])
+        for idx, (key0, rep, land, wkey) in enumerate(zip(c0["keys"], r["reported"], r["landed"], wk)):
+            c = c0
+            if c0.get("grow") and idx > c0["grow"]["after"]:
+                c = dict(c0, partitions=c0["grow"]["to"])
             key = wkey if c.get("ser") else key0
             if c.get("ser") and wkey is None and land is not None:
                 nb += 1
